@@ -173,7 +173,7 @@ func exploreDecodeTargets(c *Ctx) {
 		if isGenerated(fn) {
 			continue
 		}
-		for _, u := range calls(fn, "encoding/json.Unmarshal", "(*encoding/json.Decoder).Decode", "(*github.com/emicklei/go-restful.Request).ReadEntity", "sigs.k8s.io/yaml.Unmarshal", "github.com/ghodss/yaml.Unmarshal") {
+		for _, u := range callsLocal(fn, "encoding/json.Unmarshal", "(*encoding/json.Decoder).Decode", "(*github.com/emicklei/go-restful.Request).ReadEntity", "sigs.k8s.io/yaml.Unmarshal", "github.com/ghodss/yaml.Unmarshal") {
 			args := u.Common().Args
 			a := args[len(args)-1]
 			if mi, ok := a.(*ssa.MakeInterface); ok {
@@ -240,7 +240,7 @@ func exploreDecodedFields(c *Ctx) {
 		if isGenerated(fn) {
 			continue
 		}
-		for _, u := range calls(fn, "encoding/json.Unmarshal", "(*encoding/json.Decoder).Decode", "(*github.com/emicklei/go-restful.Request).ReadEntity") {
+		for _, u := range callsLocal(fn, "encoding/json.Unmarshal", "(*encoding/json.Decoder).Decode", "(*github.com/emicklei/go-restful.Request).ReadEntity") {
 			args := u.Common().Args
 			a := args[len(args)-1]
 			if mi, ok := a.(*ssa.MakeInterface); ok {
